@@ -5,6 +5,31 @@ V = os.path.dirname(os.path.dirname(os.path.abspath(__file__)))
 
 # id -> (engine, category, technique, text, level_note, design_ref)
 CHECKS = {
+ 'C01': ('rqmc', 'model_checking',
+         'bounded-exhaustive enumeration of edit scripts x context widths x directions through the real parser+apply, oracle = B itself',
+         'Every edit script up to length 6 (thorough 8) over {a,b} and up to 3 (4) over a 13-line nasty alphabet, with all no-final-newline/absent-side flags, context widths 0-3 and both directions is rendered by a reference differ and applied by the real code; the result must be byte-identical to B (A for -R) with offset 0 and fuzz 0.',
+         'Small-scope: lines are opaque to the code, so the bound bites on lengths only. Header dialects and -pN are covered at CLI level as far as built (see evidence).',
+         '5/C01'),
+ 'C02': ('rqmc', 'model_checking',
+         'bounded-exhaustive enumeration of (file, hunk, stated line, fuzz limit, direction) on the real apply, clause-wise oracle from brute-force match sets',
+         'All files over {a,b} up to 5 (7) lines x all hunk shapes with up to 2 (3) context lines per side x stated lines x fuzz limits 0-3 x direction, plus two-hunk patches for the previous-offset rule; each verdict of the real code is checked clause by clause (matches where applied, nearest/forward-first, anchoring, lowest level, fails only when nothing matches).',
+         'The oracle accepts both readings where the statement is ambiguous (position of a prefix-trimmed block; order conflicts between hunks), so it cannot false-alarm on GNU-conforming variants; magnitudes beyond the bound are not covered.',
+         '5/C02'),
+ 'C03': ('rqmc', 'model_checking',
+         'bounded-exhaustive enumeration of overlapping multi-hunk patches on the real apply, line-level reconstruction oracle from the hunk reports',
+         'All canonical files up to 4 (5) lines x ordered pairs/triples of position-derived hunks (all overlap relations) x fuzz x direction; expected content is rebuilt from the original and the per-hunk reports only.',
+         'Relies on the report convention that `line` is where the trimmed old side was found in the original file.',
+         '5/C03'),
+ 'C04': ('rqmc', 'model_checking',
+         'bounded-exhaustive apply->rollback over the C03 space plus explicit-state BFS over stacks of file patches with LIFO rollback',
+         'Every case of the C03 space is applied and rolled back; a BFS over apply-stacks (creates, deletes, mode changes, partial failures) checks the recorded pre-state after every rollback.',
+         'Lib-level rollback is called with the direction of the application; driver-level rollback (renames, -R entries) is checked by the CLI sweeps as far as built.',
+         '5/C04'),
+ 'C20': ('rqmc', 'model_checking',
+         'metamorphic bounded-exhaustive enumeration: same (file, patch) at all fuzz-limit pairs F<F\' on the real apply',
+         'Every (file, patch) of the C02 and C03 spaces is run at limits 0..3; whenever it applies completely at F it must apply identically (content and per-hunk placement) at every F\'>F.',
+         'Lib level; CLI --fuzz plumbing is covered by the workspace sweep as far as built.',
+         '5/C20'),
  'C07': ('rqdist', 'model_checking',
          'explicit-state BFS over the real FilenameDistributor to fixpoint, invariant vs. union-find reference in every state',
          'Every reachable state of the real distributor over N<=5 (thorough 7) names is visited (fixpoint, so call sequences of every length); in each, build() must give all names of one reference component the same thread for 8 thread counts.',
